@@ -24,7 +24,7 @@ const F: u8 = 2;
 /// A shape type defined OUTSIDE the crate (the traits are public) that reports
 /// ShapeType::NullShape: offered to a writer that already holds a type it must be rejected
 /// like any other foreign type.
-struct UserNull;
+pub struct UserNull;
 impl HasShapeType for UserNull {
     fn shapetype() -> ShapeType {
         ShapeType::NullShape
